@@ -130,7 +130,7 @@ Lemma content_agree : forall f h h' l,
   (forall m, rt h l m -> lookup h' m = lookup h m) -> content f h' l = content f h l.
 Proof.
   induction f; cbn; intros h h' l AG; auto.
-  rewrite (AG l) by apply rt_refl.
+  rewrite (AG l) by apply rt_here.
   destruct (lookup h l) as [[tg ks]|] eqn:L; auto.
   rewrite (map_res_ext (content f h') (content f h) ks); auto.
   intros k I. apply IHf. intros m R. apply AG.
